@@ -3,6 +3,7 @@ package main
 // More standard-library models.
 
 import (
+	"strings"
 	"fmt"
 	"go/constant"
 	"go/token"
@@ -145,6 +146,15 @@ func (r *Runner) atomicFuncModel(st *State, f *Frame, key string, args []Val, re
 	case len(op) > 5 && op[:5] == "Store":
 		r.guardCheck(st, p, true, pos)
 		r.storeChecked(st, p, Val{T: t, C: args[1].C}, pos)
+	case strings.HasPrefix(op, "CompareAndSwap"):
+		// swapped <=> *addr == old; *addr becomes ite(swapped, new, *addr) (sequentially consistent, one step)
+		r.guardCheck(st, p, true, pos)
+		v := st.load(p)
+		sw := st.define("cas", Eq(v.C[0], args[1].C[0]))
+		r.storeChecked(st, p, Val{T: t, C: []Term{Ite(sw, args[2].C[0], v.C[0])}}, pos)
+		if res != nil {
+			f.regs[res] = Val{T: res.Type(), C: []Term{sw}}
+		}
 	default:
 		return false
 	}
